@@ -28,7 +28,7 @@ ASSUMPTIONS = [
     "Functions whose documented job is assignment (__setitem__, attribute assignment) are not in the registry.",
     "The registry is finite and hand-built from the public API; a function missing from it is not checked. The evidence lists calls per entry.",
 ]
-REQUIRED_CLASSES = ["view-argument", "never-read-argument", "signed-numbers", "scientific-floats", "list-valued-column", "genotype-column", "merge-distance>0", "typed-info",
+REQUIRED_CLASSES = ["bam", "bam-observe-after-write", "view-argument", "never-read-argument", "signed-numbers", "scientific-floats", "list-valued-column", "genotype-column", "merge-distance>0", "typed-info",
                     "lazy-chunk", "strops", "intervals", "sequence", "encoding", "genomic", "table"]
 BOUNDS = {"quick": "60 calls per registry entry (56 entries) plus 120 lazily read chunks per format (12 formats)", "thorough": "1500 calls per entry, 2500 chunks per format"}
 BUDGET_S = {"quick": 200, "thorough": 1500}
@@ -401,6 +401,10 @@ LAZY_FMTS = ["bed3", "bed6", "bed12", "bdg", "narrowpeak", "vcf", "vcf-typed", "
 def classify(case):
     cl = []
     nontrivial = False
+    if case.get("fmt") == "bam":
+        from pbt import bamprog
+        nt, cl = bamprog.classify(case)
+        return nt, cl + ["lazy-chunk"]
     if case["kind"] == "call":
         group = get_registry()[case["entry"]][0]
         cl.append(group)
@@ -539,6 +543,12 @@ def check_lazy(case, stats):
 
 
 def check(case, stats=None):
+    if case.get("fmt") == "bam":
+        # a lazily read BAM chunk: reading fields and writing selections must not change what the chunk and its selections return
+        # afterwards (the same selection / read / write programs as C04, judged against the generated records)
+        from pbt import bamprog
+        fails, _ = bamprog.run(case, lazy=True, prefix="C20", stats=stats)
+        return fails[:1]
     return check_call(case, stats) if case["kind"] == "call" else check_lazy(case, stats)
 
 
@@ -590,6 +600,12 @@ def task_lazy(stats, known_open, variant, n, seed):
     core.run_hypothesis(sys.modules[__name__], lazy_case(variant), stats, known_open, max_examples=n, seed=seed)
 
 
+def task_bam(stats, known_open, n, seed):
+    import sys
+    from pbt import bamprog
+    core.run_hypothesis(sys.modules[__name__], bamprog.bam_case(6, 6), stats, known_open, max_examples=n, seed=seed)
+
+
 def tasks(tier, seed):
     names = sorted(get_registry())
     n_call, n_lazy = (60, 120) if tier == "quick" else (1500, 2500)
@@ -599,4 +615,6 @@ def tasks(tier, seed):
         out.append(("task_calls", dict(entries=names[s::shards], n=n_call, seed=seed * 10 + s)))
     for i, v in enumerate(LAZY_FMTS):
         out.append(("task_lazy", dict(variant=v, n=n_lazy, seed=seed * 1000 + i)))
+    for j in range(2 if tier == "quick" else 8):
+        out.append(("task_bam", dict(n=150 if tier == "quick" else 1200, seed=seed * 1000 + 700 + j)))
     return out
